@@ -79,17 +79,23 @@ Proof.
   none_enabled.
 Qed.
 
-(* explicit numbering in lazy mode (not used by strax's own senders): the fetch gate assumes in-order
-   numbers; with message 1 sent before message 0 the subscriber waits for 0, the gate sees "someone is
-   waiting for a message <= the lowest buffered one" and never fetches message 0 *)
-Example ex_lazy_out_of_order_deadlocks :
-  exists st, run ex2_cfg (init ex2_cfg [true] [(Some 1, Plain 101); (Some 0, Plain 100)] None 0)
-                 [TR 0; TS; TS; TS; TR 0] = Some st /\
-             (forall t, enabled st t = false) /\ all_terminal st = false.
-Proof.
-  eexists. split; [vm_compute; reflexivity|]. split; [|reflexivity].
-  none_enabled.
-Qed.
+(* explicit numbering through the lazy fetch gate (message 1 is sent before message 0).  In the state below
+   the subscriber waits for 0 and only message 1 is buffered.  The gate as it was before /repo ede7cda
+   (can_fetch_pinned: "someone waits for a number <= the lowest buffered one") stays closed for ever -- the
+   mailbox deadlocked; the repaired gate (can_fetch: "someone waits for a BUFFERED number") is open, message
+   0 is fetched, and the run completes with the messages in number order. *)
+Definition ex5_init : state := init ex2_cfg [true] [(Some 1, Plain 101); (Some 0, Plain 100)] None 0.
+
+Example ex_lazy_out_of_order_gate :
+  exists st, run ex2_cfg ex5_init [TR 0; TS; TS] = Some st /\
+             s_pc st = SGate /\ map fst (box st) = [1] /\ map r_waiting (rds st) = [Some 0] /\
+             can_fetch_pinned st = false /\ can_fetch st = true.
+Proof. eexists. split; [vm_compute; reflexivity|]. repeat split; reflexivity. Qed.
+
+Example ex_lazy_out_of_order_completes :
+  exists st, run ex2_cfg ex5_init [TS; TR 0; TS; TS; TS; TS; TS; TR 0; TR 0; TS; TS; TR 0] = Some st /\
+             all_terminal st = true /\ map r_log (rds st) = [[100; 101]]%Z /\ closed st = true.
+Proof. eexists. split; [vm_compute; reflexivity|]. repeat split; reflexivity. Qed.
 
 (* ---------- explicit numbering (Proof/MailboxNumbered.v) ---------- *)
 From SV Require Import Proof.MailboxNumbered.
